@@ -365,6 +365,7 @@ let eval (x : sx) : sx =
   | L (A "cyc" :: xs) -> L (A "ok" :: List.map (fun l -> L (List.map sz l)) (cyclic_permutations (zlist xs)))
   | L (A "closest" :: item :: xs) ->
       (match find_closest_index (zi item) (zlist xs) with Ok i -> L [A "ok"; sn i] | Err k -> rerr k)
+  | L [A "round"; x; n] -> L [A "ok"; sz (round_digits (qq x) (ni n))]
   | L (A "uniq" :: xs) -> L (A "ok" :: List.map sz (uniqify (zlist xs)))
   | L (A "nget" :: n :: path) -> rnest (nget (List.map ni path) (nest_of n))
   | L (A "nset" :: n :: item :: path) -> rnest (nset (List.map ni path) (nest_of item) (nest_of n))
